@@ -1,6 +1,7 @@
 ------------------------------ MODULE MC_Codecs ------------------------------
 (* C12: the properties of the codings of Codecs.tla, decided by TLC over the full value ranges.
-   The state is one test case (family, x, y); the cases of a family are enumerated in blocks so that
+   The state is one test case (family, cx, cy; the names x and y are avoided: they are parameter
+   names in Codecs and a variable of the same name stops TLC from caching the constant tables); the cases of a family are enumerated in blocks so that
    the workers share them.  Every clause of the property is one invariant:
      Inverse      Dec(Enc(v)) = v  (0xDC3 decodes to 0xDC1 / 0xDC2 by the distinction bit)
      Frame        Enc changes only the bits of the fields it writes (six backgrounds)
@@ -13,15 +14,15 @@
 EXTENDS Codecs
 CONSTANTS PilStep,       \* 1: all 2^20 PILs; n > 1: every n-th PIL plus the per-field sweeps
           Fams           \* the case families to run (a subset of DOMAIN Fam)
-VARIABLES ph, fam, x, y
-vars == <<ph, fam, x, y>>
+VARIABLES ph, fam, cx, cy
+vars == <<ph, fam, cx, cy>>
 
 Seeded(k, len) == TLCEval([i \in 1..len |-> (k * 97 + i * i * 31 + i * k * 7 + (i * 131) \div (k + 2)) % 256])
 Bg(len) == <<TLCEval([i \in 1..len |-> 0]), TLCEval([i \in 1..len |-> 255]), TLCEval([i \in 1..len |-> 170]), Seeded(1, len), Seeded(5, len), Seeded(11, len)>>
 Bg13 == TLCEval(Bg(13))   Bg5 == TLCEval(Bg(5))   Bg42 == TLCEval(Bg(42))
 NBg == 6
 
-\* family |-> <<number of x values, number of y values>>
+\* family |-> <<number of cx values, number of cy values>>
 Fam == [vcni |-> <<4096, NBg>>, pil |-> <<1048576, 1>>, pp |-> <<1024, NBg>>, flg |-> <<128, NBg>>, c16 |-> <<65536, 1>>,
         mjd |-> <<100000, 1>>, utc |-> <<87840, 1>>, lto |-> <<64, NBg>>, h1 |-> <<104, 8>>, h2 |-> <<13, 64>>, h3 |-> <<104, 104>>,
         rej |-> <<12, NBg>>, bcd |-> <<11, 6>>, rng |-> <<300, 1>>, tag |-> <<512, 1>>, ind |-> <<104, NBg>>, ind8 |-> <<336, NBg>>]
@@ -31,13 +32,13 @@ PilSweep == {MkPil(d, 0, 0, 0) : d \in 0..31} \cup {MkPil(31, m, 31, 63) : m \in
             \cup {MkPil(31, 15, 0, mi) : mi \in 0..63} \cup {MkPil(d, m, 31, 63) : d \in {0, 31}, m \in 0..15}
 XWanted(f, v) == f # "pil" \/ PilStep = 1 \/ v % PilStep = 0 \/ v \in PilSweep
 
-Init == ph = "start" /\ fam = "-" /\ x = 0 /\ y = 0
+Init == ph = "start" /\ fam = "-" /\ cx = 0 /\ cy = 0
 Next == \/ /\ ph = "start"
-           /\ \E f \in Fams : \E blk \in 0..(NBlocks(f) - 1) : ph' = "blk" /\ fam' = f /\ x' = blk /\ y' = 0
+           /\ \E f \in Fams : \E blk \in 0..(NBlocks(f) - 1) : ph' = "blk" /\ fam' = f /\ cx' = blk /\ cy' = 0
         \/ /\ ph = "blk"
-           /\ \E v \in (x * BlockSize)..((x + 1) * BlockSize - 1) : \E w \in 1..Fam[fam][2] :
+           /\ \E v \in (cx * BlockSize)..((cx + 1) * BlockSize - 1) : \E w \in 1..Fam[fam][2] :
                 /\ v < Fam[fam][1] /\ XWanted(fam, v)
-                /\ ph' = "leaf" /\ fam' = fam /\ x' = v /\ y' = w
+                /\ ph' = "leaf" /\ fam' = fam /\ cx' = v /\ cy' = w
 Spec == Init /\ [][Next]_vars
 
 (* ---------------------------------- the case of a state ----------------------------------- *)
@@ -60,10 +61,10 @@ BgOf(v) == (v % NBg) + 1
 SBit(i) == (i \div 8) * 8 + 7 - (i % 8)
 
 (* per family: the record of clause results; a clause a family does not address is absent *)
-CaseVcni == LET bg == Bg13[y]  r == EncVpsCni(bg, x)
-            IN [inverse |-> r.ok /\ VpsRawCni(r.buf) = x /\ DecVpsCni(r.buf) = CniSeen(bg, x),
+CaseVcni == LET bg == Bg13[cy]  r == EncVpsCni(bg, cx)
+            IN [inverse |-> r.ok /\ VpsRawCni(r.buf) = cx /\ DecVpsCni(r.buf) = CniSeen(bg, cx),
                 frame   |-> VpsFrame(bg, r.buf, {"cni"}),
-                reenc   |-> x # DC3 => EncVpsCni(r.buf, DecVpsCni(r.buf)) = [ok |-> TRUE, buf |-> r.buf]]
+                reenc   |-> cx # DC3 => EncVpsCni(r.buf, DecVpsCni(r.buf)) = [ok |-> TRUE, buf |-> r.buf]]
 VpsPdcClauses(bg, p) ==
   LET r == EncVpsPdc(bg, p)  d == DecVpsPdc(r.buf)
   IN [inverse |-> r.ok /\ d.ok /\ d.pid = Pid(ChVps, CtVps, CniSeen(bg, p.cni), p.pil, 0, 1, 0, p.pcs, p.pty),
@@ -82,76 +83,76 @@ P1Clauses(bg, v) ==
       frame   |-> \A i \in 0..335 : ~P1Owned(i) => Bit(b[(i \div 8) + 1], i % 8) = Bit(bg[(i \div 8) + 1], i % 8),
       reenc   |-> Enc8301(b, v) = b]
 And(a, b) == [inverse |-> a.inverse /\ b.inverse, frame |-> a.frame /\ b.frame, reenc |-> a.reenc /\ b.reenc]
-CasePil == LET p == VpsPidOf(x)  dv == EncDvb(Bg5[BgOf(x)], p)  dd == DecDvb(dv.buf)
-               dvb == [inverse |-> dv.ok /\ dd.ok /\ dd.pid = Pid(ChDvb, CtNone, 0, x, 0, 1, 0, 0, 0),
-                       frame   |-> dv.buf = EncDvb(Bg5[BgOf(x + 1)], p).buf /\ DvbGet(dv.buf, "rsv") = 15,     \* all 40 bits are written
+CasePil == LET p == VpsPidOf(cx)  dv == EncDvb(Bg5[BgOf(cx)], p)  dd == DecDvb(dv.buf)
+               dvb == [inverse |-> dv.ok /\ dd.ok /\ dd.pid = Pid(ChDvb, CtNone, 0, cx, 0, 1, 0, 0, 0),
+                       frame   |-> dv.buf = EncDvb(Bg5[BgOf(cx + 1)], p).buf /\ DvbGet(dv.buf, "rsv") = 15,     \* all 40 bits are written
                        reenc   |-> EncDvb(dv.buf, dd.pid) = dv]
-           IN And(And(VpsPdcClauses(Bg13[BgOf(x)], p), dvb), P2Clauses(Bg42[BgOf(x)], P2ValOf(x)))
-CasePp == LET pv == [VpsPidOf(x * 1031) EXCEPT !.pcs = x \div 256, !.pty = x % 256]
-              tv == [P2ValOf(x * 1031) EXCEPT !.pcs = x \div 256, !.pty = x % 256]
-          IN And(VpsPdcClauses(Bg13[y], pv), P2Clauses(Bg42[y], tv))
-CaseFlg == P2Clauses(Bg42[y], [P2ValOf(x * 523) EXCEPT !.lci = x % 4, !.luf = (x \div 4) % 2, !.mi = (x \div 8) % 2,
-                                                      !.prf = (x \div 16) % 2, !.pcs = x \div 32])
-CaseC16 == And(P1Clauses(Bg42[BgOf(x)], [P1ValOf(x) EXCEPT !.cni = x]), P2Clauses(Bg42[BgOf(x)], [P2ValOf(x) EXCEPT !.cni = x]))
-CaseMjd == P1Clauses(Bg42[BgOf(x)], [P1ValOf(x) EXCEPT !.mjd = x])
+           IN And(And(VpsPdcClauses(Bg13[BgOf(cx)], p), dvb), P2Clauses(Bg42[BgOf(cx)], P2ValOf(cx)))
+CasePp == LET pv == [VpsPidOf(cx * 1031) EXCEPT !.pcs = cx \div 256, !.pty = cx % 256]
+              tv == [P2ValOf(cx * 1031) EXCEPT !.pcs = cx \div 256, !.pty = cx % 256]
+          IN And(VpsPdcClauses(Bg13[cy], pv), P2Clauses(Bg42[cy], tv))
+CaseFlg == P2Clauses(Bg42[cy], [P2ValOf(cx * 523) EXCEPT !.lci = cx % 4, !.luf = (cx \div 4) % 2, !.mi = (cx \div 8) % 2,
+                                                      !.prf = (cx \div 16) % 2, !.pcs = cx \div 32])
+CaseC16 == And(P1Clauses(Bg42[BgOf(cx)], [P1ValOf(cx) EXCEPT !.cni = cx]), P2Clauses(Bg42[BgOf(cx)], [P2ValOf(cx) EXCEPT !.cni = cx]))
+CaseMjd == P1Clauses(Bg42[BgOf(cx)], [P1ValOf(cx) EXCEPT !.mjd = cx])
 \* all 86 400 seconds of the day, then the 1 440 leap second positions hh:mm:60
-CaseUtc == P1Clauses(Bg42[BgOf(x)],
-                     IF x < 86400 THEN [P1ValOf(x) EXCEPT !.h = x \div 3600, !.m = (x \div 60) % 60, !.s = x % 60]
-                     ELSE [P1ValOf(x) EXCEPT !.h = (x - 86400) \div 60, !.m = (x - 86400) % 60, !.s = 60])
-CaseLto == P1Clauses(Bg42[y], [P1ValOf(x * 17) EXCEPT !.lto = x])
+CaseUtc == P1Clauses(Bg42[BgOf(cx)],
+                     IF cx < 86400 THEN [P1ValOf(cx) EXCEPT !.h = cx \div 3600, !.m = (cx \div 60) % 60, !.s = cx % 60]
+                     ELSE [P1ValOf(cx) EXCEPT !.h = (cx - 86400) \div 60, !.m = (cx - 86400) % 60, !.s = 60])
+CaseLto == P1Clauses(Bg42[cy], [P1ValOf(cx * 17) EXCEPT !.lto = cx])
 
-\* Hamming: x = bit inside bytes 13..25, y = sample
+\* Hamming: cx = bit inside bytes 13..25, cy = sample
 HSample(k) == P2ValOf(k * 104729 + 12345)
-CaseH1 == LET b == Enc8302(Bg42[BgOf(y)], HSample(y))  c == FlipBit(b, 72 + x)
-          IN [tolerant |-> Dec8302Pdc(c) = Dec8302Pdc(b) /\ Dec8302CniMustAccept(c) /\ Dec8302CniValue(c) = HSample(y).cni]
-\* two flipped bits in one byte: x = byte 0..12, y - 1 = i * 8 + j
-CaseH2 == LET b == Enc8302(Bg42[BgOf(x)], HSample(x))  i == (y - 1) \div 8  j == (y - 1) % 8
-              c == FlipBit(FlipBit(b, 72 + x * 8 + i), 72 + x * 8 + j)
-          IN [rejects |-> i # j => (~Dec8302Pdc(c).ok /\ ~Dec8302CniMustAccept(c) /\ (x \in P2CniNibbles => Dec8302CniMustReject(c)))]
+CaseH1 == LET b == Enc8302(Bg42[BgOf(cy)], HSample(cy))  c == FlipBit(b, 72 + cx)
+          IN [tolerant |-> Dec8302Pdc(c) = Dec8302Pdc(b) /\ Dec8302CniMustAccept(c) /\ Dec8302CniValue(c) = HSample(cy).cni]
+\* two flipped bits in one byte: cx = byte 0..12, cy - 1 = i * 8 + j
+CaseH2 == LET b == Enc8302(Bg42[BgOf(cx)], HSample(cx))  i == (cy - 1) \div 8  j == (cy - 1) % 8
+              c == FlipBit(FlipBit(b, 72 + cx * 8 + i), 72 + cx * 8 + j)
+          IN [rejects |-> i # j => (~Dec8302Pdc(c).ok /\ ~Dec8302CniMustAccept(c) /\ (cx \in P2CniNibbles => Dec8302CniMustReject(c)))]
 \* one flipped bit in each of two different bytes
-CaseH3 == LET b == Enc8302(Bg42[BgOf(x)], HSample(x + y))  c == FlipBit(FlipBit(b, 72 + x), 72 + y - 1)
-          IN [tolerant |-> x \div 8 # (y - 1) \div 8 => Dec8302Pdc(c) = Dec8302Pdc(b)]
+CaseH3 == LET b == Enc8302(Bg42[BgOf(cx)], HSample(cx + cy))  c == FlipBit(FlipBit(b, 72 + cx), 72 + cy - 1)
+          IN [tolerant |-> cx \div 8 # (cy - 1) \div 8 => Dec8302Pdc(c) = Dec8302Pdc(b)]
 
 BadPids == LET g == VpsPidOf(4711)
            IN <<[g EXCEPT !.cni = 4096], [g EXCEPT !.cni = 65535], [g EXCEPT !.cni = -1], [g EXCEPT !.cni = 2147483647],
                 [g EXCEPT !.pil = 1048576], [g EXCEPT !.pil = -1], [g EXCEPT !.pil = 2147483647],
                 [g EXCEPT !.pcs = 4], [g EXCEPT !.pcs = -1], [g EXCEPT !.pty = 256], [g EXCEPT !.pty = -1], [g EXCEPT !.pty = 2147483647]>>
-CaseRej == LET p == BadPids[x + 1]
-           IN [rejects |-> /\ EncVpsPdc(Bg13[y], p) = [ok |-> FALSE, buf |-> Bg13[y]]
-                           /\ (p.cni \notin 0..4095 => EncVpsCni(Bg13[y], p.cni) = [ok |-> FALSE, buf |-> Bg13[y]])
-                           /\ (p.pil \notin 0..1048575 => EncDvb(Bg5[y], p) = [ok |-> FALSE, buf |-> Bg5[y]])]
-\* x = digit position 0..10 (5 MJD, 6 UTC digits), y = the offending nibble value
+CaseRej == LET p == BadPids[cx + 1]
+           IN [rejects |-> /\ EncVpsPdc(Bg13[cy], p) = [ok |-> FALSE, buf |-> Bg13[cy]]
+                           /\ (p.cni \notin 0..4095 => EncVpsCni(Bg13[cy], p.cni) = [ok |-> FALSE, buf |-> Bg13[cy]])
+                           /\ (p.pil \notin 0..1048575 => EncDvb(Bg5[cy], p) = [ok |-> FALSE, buf |-> Bg5[cy]])]
+\* cx = digit position 0..10 (5 MJD, 6 UTC digits), cy = the offending nibble value
 DigitAt(pos) == <<<<13, 0>>, <<14, 4>>, <<14, 0>>, <<15, 4>>, <<15, 0>>, <<16, 4>>, <<16, 0>>, <<17, 4>>, <<17, 0>>, <<18, 4>>, <<18, 0>>>>[pos + 1]
 SetNibble(b, pos, val) == LET at == DigitAt(pos) IN TLCEval([b EXCEPT ![at[1]] = @ - Fld(@, at[2], 4) * 2^(at[2]) + val * 2^(at[2])])
-CaseBcd == LET b == Enc8301(Bg42[y], P1ValOf(x * 7919 + y))  bad == <<0, 11, 12, 13, 14, 15>>[y]
-           IN [rejects |-> ~Dec8301Time(SetNibble(b, x, bad)).ok]
-\* BCD valid but no time of day: x = 0..99 hours, 100..199 minutes, 200..299 seconds
-CaseRng == LET v == P1ValOf(x)  two == x % 100  k == x \div 100
-               b == Enc8301(Bg42[BgOf(x)], v)
+CaseBcd == LET b == Enc8301(Bg42[cy], P1ValOf(cx * 7919 + cy))  bad == <<0, 11, 12, 13, 14, 15>>[cy]
+           IN [rejects |-> ~Dec8301Time(SetNibble(b, cx, bad)).ok]
+\* BCD valid but no time of day: cx = 0..99 hours, 100..199 minutes, 200..299 seconds
+CaseRng == LET v == P1ValOf(cx)  two == cx % 100  k == cx \div 100
+               b == Enc8301(Bg42[BgOf(cx)], v)
                c == SetNibble(SetNibble(b, 5 + 2 * k, (two \div 10) + 1), 6 + 2 * k, (two % 10) + 1)
                lim == <<23, 59, 60>>[k + 1]
            IN [rejects |-> Dec8301Time(c).ok = (two <= lim)]
-\* descriptor tag / length: x = tag * 2 + (length is 3)
-CaseTag == LET d == EncDvb(Bg5[4], VpsPidOf(x)).buf  c == TLCEval([d EXCEPT ![1] = x \div 2, ![2] = IF x % 2 = 1 THEN 3 ELSE (x \div 2) % 256])
+\* descriptor tag / length: cx = tag * 2 + (length is 3)
+CaseTag == LET d == EncDvb(Bg5[4], VpsPidOf(cx)).buf  c == TLCEval([d EXCEPT ![1] = cx \div 2, ![2] = IF cx % 2 = 1 THEN 3 ELSE (cx \div 2) % 256])
            IN [rejects |-> DecDvb(c).ok = (c[1] = 105 /\ c[2] = 3)]
-\* VPS / descriptor bit independence: x = stream bit, y = background
-CaseInd == LET bg == Bg13[y]  bf == FlipBit(bg, SBit(x))  p == VpsPidOf(x * 7 + y)
+\* VPS / descriptor bit independence: cx = stream bit, cy = background
+CaseInd == LET bg == Bg13[cy]  bf == FlipBit(bg, SBit(cx))  p == VpsPidOf(cx * 7 + cy)
                r == EncVpsPdc(bg, p)  rf == EncVpsPdc(bf, p)  c == EncVpsCni(bg, p.cni)  cf == EncVpsCni(bf, p.cni)
-               o == VpsOwner[x].n
-           IN [indep |-> /\ rf.buf = (IF o \in {"cni", "pil", "pcs", "pty"} THEN r.buf ELSE FlipBit(r.buf, SBit(x)))
-                         /\ cf.buf = (IF o = "cni" THEN c.buf ELSE FlipBit(c.buf, SBit(x)))
+               o == VpsOwner[cx].n
+           IN [indep |-> /\ rf.buf = (IF o \in {"cni", "pil", "pcs", "pty"} THEN r.buf ELSE FlipBit(r.buf, SBit(cx)))
+                         /\ cf.buf = (IF o = "cni" THEN c.buf ELSE FlipBit(c.buf, SBit(cx)))
                          /\ (o = "-" => DecVpsPdc(bf) = DecVpsPdc(bg))
                          /\ (o \notin {"cni", "dist"} => DecVpsCni(bf) = DecVpsCni(bg))
                          /\ (o = "dist" /\ VpsRawCni(bg) # DC3 => DecVpsCni(bf) = DecVpsCni(bg))
-                         /\ (x < DvbLen /\ DvbOwner[x].n = "rsv" =>
-                               LET d == EncDvb(Bg5[y], p).buf IN DecDvb(FlipBit(d, SBit(x))) = DecDvb(d))]
-\* packet 8/30: x = buffer bit 0..335
-CaseInd8 == LET b1 == Enc8301(Bg42[y], P1ValOf(x + y))  b2 == Enc8302(Bg42[y], P2ValOf(x + y))  byte == (x \div 8) + 1
-            IN [indep |-> /\ (~P1Owned(x) => (Dec8301Cni(FlipBit(b1, x)) = Dec8301Cni(b1) /\ Dec8301Time(FlipBit(b1, x)) = Dec8301Time(b1)))
-                          /\ (byte \notin {10, 11} => Dec8301Cni(FlipBit(b1, x)) = Dec8301Cni(b1))
-                          /\ (byte \notin 10..22 => (Dec8302Pdc(FlipBit(b2, x)) = Dec8302Pdc(b2)
-                                                     /\ Dec8302CniValue(FlipBit(b2, x)) = Dec8302CniValue(b2)
-                                                     /\ Dec8302CniMustAccept(FlipBit(b2, x))))]
+                         /\ (cx < DvbLen /\ DvbOwner[cx].n = "rsv" =>
+                               LET d == EncDvb(Bg5[cy], p).buf IN DecDvb(FlipBit(d, SBit(cx))) = DecDvb(d))]
+\* packet 8/30: cx = buffer bit 0..335
+CaseInd8 == LET b1 == Enc8301(Bg42[cy], P1ValOf(cx + cy))  b2 == Enc8302(Bg42[cy], P2ValOf(cx + cy))  byte == (cx \div 8) + 1
+            IN [indep |-> /\ (~P1Owned(cx) => (Dec8301Cni(FlipBit(b1, cx)) = Dec8301Cni(b1) /\ Dec8301Time(FlipBit(b1, cx)) = Dec8301Time(b1)))
+                          /\ (byte \notin {10, 11} => Dec8301Cni(FlipBit(b1, cx)) = Dec8301Cni(b1))
+                          /\ (byte \notin 10..22 => (Dec8302Pdc(FlipBit(b2, cx)) = Dec8302Pdc(b2)
+                                                     /\ Dec8302CniValue(FlipBit(b2, cx)) = Dec8302CniValue(b2)
+                                                     /\ Dec8302CniMustAccept(FlipBit(b2, cx))))]
 
 Clauses == CASE fam = "vcni" -> CaseVcni [] fam = "pil" -> CasePil [] fam = "pp" -> CasePp [] fam = "flg" -> CaseFlg
              [] fam = "c16" -> CaseC16 [] fam = "mjd" -> CaseMjd [] fam = "utc" -> CaseUtc [] fam = "lto" -> CaseLto
@@ -168,5 +169,5 @@ Rejects       == Holds("rejects")
 ErrorTolerant == Holds("tolerant")
 Independent   == Holds("indep")
 Property == ph = "leaf" => LET cl == Clauses
-                           IN \A c \in DOMAIN cl : cl[c] \/ (PrintT(<<"CLAUSE-VIOLATED", c, fam, x, y>>) /\ FALSE)
+                           IN \A c \in DOMAIN cl : cl[c] \/ (PrintT(<<"CLAUSE-VIOLATED", c, fam, cx, cy>>) /\ FALSE)
 =============================================================================
